@@ -31,7 +31,9 @@ CHECKS = {
 CHECKS['C07'] = dict(
     technique='TLA+ spec Process.tla (process-wide caches as a state machine): TLC checks HistoryIndependent/CacheCoherent on the '
               'intended protocol and refutes the pinned and by-path protocols; TLC-simulated behaviours are executed in one real '
-              'interpreter each and compared with fresh-process references; random histories validated by Trace_Process.tla',
+              'interpreter each and compared with fresh-process references; random histories and a deterministic edit-and-reload '
+              'family (every ordered pair of rule-file contents on the same path, loads in the order the commands use) validated by '
+              'Trace_Process.tla',
     text='The cache protocol of get_all_rules/normalize_merchant/parse_expression is an explicit state machine; TLC exhausts it '
          'and generates operation sequences which are replayed into the real code, every classification being compared with the '
          'same call made in a freshly forked interpreter; recorded random histories are validated by the trace spec.',
@@ -47,8 +49,9 @@ CHECKS['C15'] = dict(
     category='model_checking',
     text='Every prefix of every migration\'s effect sequence, with every single fault and torn write, is enumerated on the model by '
          'TLC and on the real CLI by fault injection; the invariants are evaluated by TLC on the abstracted real outcomes.',
-    note='crash = kill after an effect the process completed (no fsync/reordering model); fixed concrete budget classes; the shim '
-         'counts open/write/close/move/mkdir/rename effects under the budget directory',
+    note='crash = kill after an effect the process completed (no fsync/reordering model), writes and file copies can be torn; fixed '
+         'concrete budget classes, some under paths with blanks and metacharacters; the shim counts open/write/close/move/copy/'
+         'mkdir/rename effects under the budget directory; for `tally init` interruption points stop at the last migration step',
     design='§4 C15')
 CHECKS['C20'] = dict(
     technique='TLA+ spec Commands.tla: every command as an action on the budget directory; TLC checks the frame properties over '
@@ -57,7 +60,8 @@ CHECKS['C20'] = dict(
               'Trace_Commands.tla',
     text='The write-set of every command is specified; TLC explores all short histories; hundreds of histories run against the real '
          'CLI with content hashes of every file checked after each command and the abstract tree compared with the spec\'s prediction.',
-    note='old-layout budgets with fixed concrete contents per content class; non-interactive runs',
+    note='budgets in both folder layouts, LF and CRLF user files, paths with metacharacters; fixed concrete contents per content '
+         'class; non-interactive runs',
     design='§4 C20')
 
 _ENGINE_NOTE = ('atom truth fixed by construction of the concrete transaction; TLC, the dump parser and the concretiser are trusted; '
@@ -97,16 +101,18 @@ CHECKS['C03'] = dict(
     design='§4 C03')
 CHECKS['C04'] = dict(
     technique='TLA+ reference semantics Expr.tla (+Text.tla, Regex.tla): TLC checks the C04 rewriting laws (double negation, De Morgan, '
-              'commutation, chain = conjunction, short circuit, /0 %0, case-insensitivity) on every expression of the bounded universe; '
-              'each state is printed to source and evaluated by the real evaluator; recorded evaluations of repository and random '
-              'expressions are validated by Trace_Expr.tla',
+              'commutation, chain = conjunction, == is not !=, short circuit, /0 %0, case-insensitivity) on every expression of the bounded '
+              'universe; each state is printed to source and evaluated by the real evaluator (every third evaluation after "poison" '
+              'evaluations that bind the names other expressions read); recorded evaluations of repository and random expressions '
+              'are validated by Trace_Expr.tla; the equality law is also replayed on the real code with floats that carry rounding noise',
     text='An executable reference semantics of the expression language in TLA+; exhaustive at depth 1 (all environments) and depth 2 '
          '(sampled replay), and trace validation of thousands of independently generated expressions with every value compared.',
     note='ASCII-cased text, small rationals, the regex fragment of Regex.tla; constructs the spec does not define are counted as skipped',
     design='§4 C04')
 CHECKS['C08'] = dict(
     technique='TLA+ specs Expr.tla (outcome Err for ill-typed / partial expressions; MC_Expr ill-typed universe) and Engine.tla '
-              '(ErrorIsAbsence) checked by TLC and replayed; 39 failing expressions placed in every position of a rule file and '
+              '(ErrorIsAbsence) checked by TLC and replayed; 54 failing expressions placed in every position of a rule file (and failing '
+              'view filters with view-local variables in a views file) and '
               'compared with the file without them on three classification paths; type-confused random expressions validated by '
               'Trace_Expr.tla; tally up on two-source budgets',
     text='Every way an accepted expression can fail is enumerated in the model and concretely; the real engine must complete and give '
